@@ -19,6 +19,7 @@ import (
 	"os"
 	"path/filepath"
 	"regexp"
+	"runtime"
 	"sort"
 	"strings"
 	"sync"
@@ -40,13 +41,68 @@ func TestVerifSim(t *testing.T) {
 	os.Stderr = devnull
 	log.SetOutput(io.Discard)
 	slog.SetDefault(slog.New(slog.NewTextHandler(io.Discard, nil)))
+	runtime.GOMAXPROCS(1) // as in H3: overlapping requests are served on one processor, in the order the harness decides
 	hlib.Main("h4", map[string]hlib.Scenario{"C13": scenarioC13})
 }
 
 // permBucket wraps a bucket: the order in which objects are listed comes from the tape.
+// It also carries a seam for overlapping requests: the reader of one chosen
+// object hands out a first small piece and then stops until it is released,
+// while the harness serves another request in full.
 type permBucket struct {
 	storage.BucketHandle
-	t *simrt.Tape
+	t    *simrt.Tape
+	park *parkState
+}
+
+type parkState struct {
+	name    string
+	first   int // bytes handed out before the reader stops
+	used    bool
+	parked  chan struct{}
+	release chan struct{}
+}
+
+func (b *permBucket) Object(name string) storage.ObjectHandle {
+	o := b.BucketHandle.Object(name)
+	if b.park != nil && b.park.name == name && !b.park.used {
+		return &parkObject{o, b.park}
+	}
+	return o
+}
+
+type parkObject struct {
+	storage.ObjectHandle
+	st *parkState
+}
+
+func (o *parkObject) NewReader(ctx context.Context) (io.ReadCloser, error) {
+	r, err := o.ObjectHandle.NewReader(ctx)
+	if err != nil || o.st.used {
+		return r, err
+	}
+	o.st.used = true
+	return &parkReader{ReadCloser: r, st: o.st}, nil
+}
+
+type parkReader struct {
+	io.ReadCloser
+	st    *parkState
+	calls int
+}
+
+func (r *parkReader) Read(p []byte) (int, error) {
+	r.calls++
+	switch r.calls {
+	case 1:
+		if len(p) > r.st.first {
+			p = p[:r.st.first]
+		}
+	case 2:
+		close(r.st.parked)
+		<-r.st.release
+	}
+	return r.ReadCloser.Read(p)
 }
 
 type sliceIter struct {
@@ -138,7 +194,7 @@ func scenarioC13(c *hlib.RunCtx) *hlib.Violation {
 		if err != nil {
 			panic(err)
 		}
-		return &permBucket{b, t}
+		return &permBucket{BucketHandle: b, t: t}
 	}
 	api := &storage.API{Upload: mk("uploaded"), Merge: mk("merged"), Chart: mk("charts")}
 
@@ -468,6 +524,56 @@ func scenarioC13(c *hlib.RunCtx) *hlib.Violation {
 		}
 		sample = append(sample, fmt.Sprintf("chart %s..%s missing=%v", start, end, missing))
 		s.Logf("op", "chart %s..%s missing=%v bytes=%d", start, end, missing, len(first))
+	}
+	// Two chart requests whose handling overlaps: the first stops in the middle of
+	// reading one day's merged reports while the second is served in full. Each
+	// chart is that of its own day.
+	if viol == nil && ndays >= 2 && t.Bool(1, 3) {
+		a := t.Draw(ndays)
+		b := (a + 1 + t.Draw(ndays-1)) % ndays
+		if a != skipDay && b != skipDay && len(stored[refcal.Date(day0+a)]) > 0 {
+			da, db := refcal.Date(day0+a), refcal.Date(day0+b)
+			os.Remove(filepath.Join(dir, "charts", da+".json"))
+			os.Remove(filepath.Join(dir, "charts", db+".json"))
+			st := &parkState{name: da + ".json", first: 1 + t.Draw(60), parked: make(chan struct{}), release: make(chan struct{})}
+			api.Merge.(*permBucket).park = st
+			recA, recB := httptest.NewRecorder(), httptest.NewRecorder()
+			doneA := make(chan struct{})
+			go func() {
+				handleChart(cfg, api).ServeHTTP(recA, httptest.NewRequest("GET", "/chart/?date="+da, nil))
+				close(doneA)
+			}()
+			overlapped := false
+			select {
+			case <-st.parked:
+				overlapped = true
+			case <-doneA:
+			}
+			handleChart(cfg, api).ServeHTTP(recB, httptest.NewRequest("GET", "/chart/?date="+db, nil))
+			if overlapped {
+				close(st.release)
+				<-doneA
+				s.Probe("overlapping-charts")
+			}
+			api.Merge.(*permBucket).park = nil
+			s.Logf("op", "overlapping charts of %s (stopped after %d bytes: %v) and %s -> %d, %d", da, st.first, overlapped, db, recA.Code, recB.Code)
+			for _, x := range []struct {
+				date string
+				day  int
+				rec  *httptest.ResponseRecorder
+			}{{da, a, recA}, {db, b, recB}} {
+				if x.rec.Code != 200 {
+					fail("chart-failed", "charting %s while another chart request was being served answered %d: %s", x.date, x.rec.Code, x.rec.Body.String())
+					continue
+				}
+				out, err := os.ReadFile(filepath.Join(dir, "charts", x.date+".json"))
+				if err != nil {
+					fail("chart-missing", "chart object %s.json missing after two overlapping chart requests", x.date)
+					continue
+				}
+				checkChart(out, ucfg, stored, day0, x.day, x.day, fail)
+			}
+		}
 	}
 	// A late report arrives for a day that was already merged and charted: the
 	// day is merged again (the worker does so daily for the past week) and the
